@@ -3942,3 +3942,103 @@ func rulePooledMatchResetIsTotal(r *Report, rule string) {
 		undecidedf("%s: only %d restored fields found", fi.Name, n)
 	}
 }
+
+// ruleOneKVBatchPerIndexBatch (K12): upsidedown's atomic visibility of an index
+// batch rests on handing ALL of its rows (documents, deletions, internal
+// values) to the KV store in ONE ExecuteBatch.  From Batch (and the same-package
+// helpers it calls, two levels) exactly one ExecuteBatch call site is reachable.
+func ruleOneKVBatchPerIndexBatch(r *Report, rule string) {
+	p := r.P
+	root := p.MustFunc("index/upsidedown.(*UpsideDownCouch).Batch")
+	r.Fn(root)
+	var sites []string
+	seen := map[*FuncInfo]bool{}
+	var walk func(fi *FuncInfo, depth int)
+	walk = func(fi *FuncInfo, depth int) {
+		if fi == nil || fi.Decl.Body == nil || seen[fi] {
+			return
+		}
+		seen[fi] = true
+		info := fi.Pkg.TypesInfo
+		for _, c := range callsDeep(fi.Decl.Body) {
+			f := callee(info, c)
+			if f == nil {
+				continue
+			}
+			if f.Name() == "ExecuteBatch" {
+				sites = append(sites, p.Pos(c.Pos()))
+				continue
+			}
+			if depth < 2 && f.Pkg() == fi.Pkg.Types {
+				walk(p.funcs[funcName(f)], depth+1)
+			}
+		}
+	}
+	walk(root, 0)
+	sort.Strings(sites)
+	r.Ob(rule, root.Name+"/exactly-one-ExecuteBatch-reachable", root.Decl.Pos(), len(sites) == 1, "an index batch reaches the KV store through exactly one ExecuteBatch (found at "+strings.Join(sites, ", ")+"); a second write makes a concurrent reader see the batch's documents without its internal values (or the reverse)")
+}
+
+// ruleKVGetAbsenceIsNil (K12): KVReader.Get returns nil for an absent key and a
+// (possibly EMPTY) slice for a present one.  Callers must test absence with
+// `== nil`; `len(v) == 0` also fires for a present key with an empty value
+// (upsidedown's back-index row of a document without indexed or stored fields
+// is such a value) and makes the caller treat a live row as missing.
+func ruleKVGetAbsenceIsNil(r *Report, rule string) {
+	p := r.P
+	n := 0
+	for _, fi := range p.flist {
+		rel := relPkg(fi.Pkg.PkgPath)
+		if fi.Decl.Body == nil || !(rel == "index/upsidedown" || strings.HasPrefix(rel, "index/upsidedown/")) {
+			continue
+		}
+		info := fi.Pkg.TypesInfo
+		vals := map[types.Object]bool{}
+		ast.Inspect(fi.Decl.Body, func(x ast.Node) bool {
+			as, ok := x.(*ast.AssignStmt)
+			if !ok || len(as.Rhs) != 1 || len(as.Lhs) < 1 {
+				return true
+			}
+			if c, ok := as.Rhs[0].(*ast.CallExpr); ok {
+				if f := callee(info, c); f != nil && f.Name() == "Get" && strings.Contains(qname(f), "KVReader") {
+					if o := objOf(info, as.Lhs[0]); o != nil {
+						vals[o] = true
+					}
+				}
+			}
+			return true
+		})
+		if len(vals) == 0 {
+			continue
+		}
+		ast.Inspect(fi.Decl.Body, func(x ast.Node) bool {
+			be, ok := x.(*ast.BinaryExpr)
+			if !ok {
+				return true
+			}
+			if e, _, isNil := nilTest(info, be); isNil && vals[objOf(info, e)] {
+				n++
+				r.Fn(fi)
+				r.Ob(rule, fi.Name+"/"+exprStr(e)+"-absence-tested-with-nil", be.Pos(), true, "absence of the key is tested with a nil comparison")
+				return true
+			}
+			c, ok := ast.Unparen(be.X).(*ast.CallExpr)
+			if !ok || calleeBuiltin(info, c) != "len" || len(c.Args) != 1 || !vals[objOf(info, c.Args[0])] {
+				return true
+			}
+			if _, isC := intConst(info, be.Y); !isC {
+				return true
+			}
+			switch be.Op {
+			case token.EQL, token.NEQ, token.GTR, token.LSS, token.LEQ, token.GEQ:
+				n++
+				r.Fn(fi)
+				r.Ob(rule, fi.Name+"/"+exprStr(c.Args[0])+"-absence-tested-with-nil", be.Pos(), false, "`"+exprStr(be)+"` on the result of KVReader.Get conflates 'key absent' (nil) with 'present with an empty value': a live row with an empty value is treated as missing")
+			}
+			return true
+		})
+	}
+	if n < 3 {
+		undecidedf("KV Get absence rule matched %d tests", n)
+	}
+}
